@@ -33,6 +33,10 @@ def rule_setter(rep, tname, m):
         newv = ir.path(p)
         if fname.endswith("relative"):
             newv = sa.fields.get("target_ratio")
+        er = sh.get("accept_early_returns", [])
+        rep.ob(R, key + "/always-stores", not er,
+               "an accepted call can return early (line %s) without performing the stores: the requested ratio (or its ramp flag) is then silently ignored for some call sequences" % [x.get("ln") for x in er],
+               loc(fn, er[0]) if er else loc(fn))
         tr = sa.fields.get("target_ratio")
         ok_t = tr is not None and (is_path(tr, p) if not fname.endswith("relative") else ir.mentions(tr, lambda x: is_path(x, p)) if hasattr(ir, "mentions") else True)
         rep.ob(R, key + "/target", tr is not None and ok_t, "accept path stores target_ratio := %s" % show(tr), loc(fn), sample={"fn": key, "target_ratio": show(tr)})
@@ -262,7 +266,7 @@ def run(rep):
                 rule_scev(rep, t, m)
                 rule_provision(rep, t, m)
         rep.guarded("R-C06-setter", one)
-    rep.floor("R-C06-setter", 1 + 4 * 5)
+    rep.floor("R-C06-setter", 1 + 4 * 7)
     rep.floor("R-C06-step", 4 * 3 + 18)
     rep.floor("R-C06-scev", 9)
     rep.floor("R-C06-provision", 5 + 1 + 5 + 1 + 1 + 2)
